@@ -223,6 +223,24 @@ def from_str_lemmas(F, rep, rule="C16.6"):
             expect_dna(rep, rule, okey, dt, r, dt.words("c", n), n, "from_dna_string of %d ASCII chars: base i = base_to_bits(char i) — same table as the byte constructor" % n)
         guarded(rep, rule, okey, "from_dna_string", f)
 
+    # the whole ASCII alphabet, concretely, at every position class of a storage word (the string is the 128 characters 0x00..0x7f, then
+    # again rotated by 7 so that each character also lands on another lane): base i = the scalar table of the byte constructors
+    code = {65: 0, 97: 0, 67: 1, 99: 1, 71: 2, 103: 2, 84: 3, 116: 3}
+    for rot in (0, 7):
+        okey = "from_dna_string/ascii-alphabet/rot=%d" % rot
+
+        def g(rot=rot, okey=okey):
+            chars = [(i + rot) % 128 for i in range(128)]
+            r, _ = run_inst(F, "dna_string::DnaString::from_dna_string", [Ref(Cell(Arr([Int(8, False, val=c) for c in chars]), "str"))], Harness())
+            ws = [[ZERO] * 64 for _ in range(4)]
+            for i, c in enumerate(chars):
+                v = code.get(c, 0)
+                ws[i // 32][63 - 2 * (i % 32)] = ONE if v & 2 else ZERO
+                ws[i // 32][62 - 2 * (i % 32)] = ONE if v & 1 else ZERO
+            expect_dna(rep, rule, okey, dt, r, ws, 128, "from_dna_string of all 128 ASCII characters: A/C/G/T in either case map to 0/1/2/3 and every "
+                       "other character to A, as in the byte constructor")
+        guarded(rep, rule, okey, "from_dna_string", g)
+
 
 class RunsOracles(Oracles):
     """every input character is of one of four kinds, chosen by an oracle: an ACGT letter (which one stays symbolic), the letter 'N', the
@@ -342,15 +360,21 @@ def dna_only_runs(F, rep, rule="C16.4", maxn=5):
 
 
 class HashNOracles(Oracles):
-    def __init__(self):
+    """the hasher is a value whose state is the sequence of things hashed into it; `finish` yields a symbolic word named by that state,
+    so the final string says, bit by bit, which hash (if any) each base came from — however the function builds the string"""
+
+    def __init__(self, avx2=False):
         Oracles.__init__(self)
-        self.pushes = []
+        self.avx2 = avx2
+        self.names = {}
 
     def on_call(self, it, fn, args, dest_ty, term, caller):
         p = fn.get("path", "")
         rp = fn.get("rpath") or p
         name = p.split("::")[-1]
-        if "DefaultHasher" in p and name == "new":
+        if "is_feature_detected" in p:
+            return mkbool(self.avx2)
+        if "DefaultHasher" in p and name in ("new", "default"):
             return Opaque("DefaultHasher", {"hasher"}, {"h": ()})
         if name == "hash" and fn.get("trait", "").endswith("hash::Hash"):
             tgt = args[1]
@@ -368,19 +392,14 @@ class HashNOracles(Oracles):
             return Tup([])
         if name == "finish" and fn.get("trait", "").endswith("Hasher"):
             hv = recv(it, args[0])
-            return Int(64, False, bits=[TOP] * 64, tags=frozenset({"hash:%r" % (hv.info.get("h"),)}))
+            if not (isinstance(hv, Opaque) and "h" in hv.info):
+                raise Undecided("finish of %r" % (hv,))
+            st = hv.info["h"]
+            nm = self.names.setdefault(st, "H%d" % len(self.names))
+            return Int(64, False, bits=[var(nm, i) for i in range(64)])
         if name == "clone" and args and isinstance(recv(it, args[0]), Opaque) and "h" in recv(it, args[0]).info:
             hv = recv(it, args[0])
             return Opaque("DefaultHasher", {"hasher"}, dict(hv.info))
-        if p == "dna_string::DnaString::push":
-            v = args[1]
-            if isinstance(v, Int) and v.is_conc():
-                self.pushes.append(("const", v.val))
-            else:
-                hs = [t for t in tags_of(v) if t.startswith("hash:")]
-                lo, hi = v.rng() if isinstance(v, Int) else (None, None)
-                self.pushes.append(("hash", hs[0] if hs else None, hi))
-            return Tup([])
         if rp.startswith(("std::collections::hash_map::RandomState", "std::hash::RandomState", "std::time::", "rand::")):
             self.observe("nondeterministic", rp)
             raise Undecided("nondeterministic source %s" % rp)
@@ -388,48 +407,83 @@ class HashNOracles(Oracles):
 
 
 def hashn_table(F, rep, rule="C16.5"):
+    from .lemmas import DnaT
     key = "dna_string::DnaString::from_acgt_bytes_hashn"
     if key not in F.insts:
         rep.violated(rule, "from_acgt_bytes_hashn", "anchor-missing", witness={"kind": "anchor-missing"})
         return
-    classes = {"A": 65, "c": 99, "G": 71, "t": 116, "N": 78, "\xff": 255}
-    code = {"A": 0, "c": 1, "G": 2, "t": 3}
+    try:
+        dt = DnaT(F)
+    except Unsupported as e:
+        rep.inconclusive(rule, "from_acgt_bytes_hashn", "role discovery: %s" % e)
+        return
+    classes = {"A": 65, "a": 97, "c": 99, "G": 71, "t": 116, "N": 78, "\xff": 255}
+    code = {"A": 0, "a": 0, "c": 1, "G": 2, "t": 3}
     problems = []
     rows = 0
     import itertools
     for n in (0, 1, 2, 3):
         for combo in itertools.product(sorted(classes), repeat=n):
+          for avx2 in (False, True):
             rows += 1
             rep.evaluations += 1
-            h = HashNOracles()
+            h = HashNOracles(avx2)
             it = Interp(F, True, h)
             bytes_ = [Int(8, False, val=classes[c]) for c in combo]
             name = Ref(Cell(Arr([Int(8, False, bits=[TOP] * 8) for _ in range(4)]), "read_name"))
             try:
-                it.call_body(F.insts[key], [Ref(Cell(Arr(bytes_), "bytes")), name])
+                r = it.call_body(F.insts[key], [Ref(Cell(Arr(bytes_), "bytes")), name])
+                st, ln = dt.parts(r)
             except (Undecided, Unsupported) as e:
                 problems.append((str(e), combo, True))
                 continue
             except Diverge as e:
                 problems.append(("diverges: %s" % e, combo, False))
                 continue
-            want = []
+            shown = "".join(combo)
+            if not (isinstance(ln, Int) and ln.is_conc() and isinstance(st, VecV) and all(isinstance(w, Int) for w in st.elems)):
+                problems.append(("result %r" % (r,), combo, True))
+                continue
+            if ln.val != n or len(st.elems) != (n + 31) // 32:
+                problems.append(("input %r: the result has length %d in %d words; required %d bases" % (shown, ln.val, len(st.elems), n), combo, False))
+                continue
+            rev = {v: k for k, v in h.names.items()}
             for i, c in enumerate(combo):
+                wbits = st.elems[i // 32].getbits()
+                hi, lo = wbits[63 - 2 * (i % 32)], wbits[62 - 2 * (i % 32)]
+                if hi is TOP or lo is TOP:
+                    problems.append(("input %r: base %d is unknown" % (shown, i), combo, True))
+                    break
                 if c in code:
-                    want.append(("const", code[c]))
+                    if (lo, hi) != ((ONE if code[c] & 1 else ZERO), (ONE if code[c] & 2 else ZERO)):
+                        problems.append(("input %r: base %d (%r) becomes %s|%s; required code %d — A/C/G/T in either case are kept as they are"
+                                         % (shown, i, c, bv.t_str(hi), bv.t_str(lo), code[c]), combo, False))
+                        break
                 else:
-                    want.append(("hash", "hash:%r" % ((("name",), ("pos", i)),), 3))
-            if h.pushes != want:
-                problems.append(("input %r: bases pushed %s; required %s (ACGT untouched; every other byte replaced by a valid base that is a function of "
-                                 "(read name, position) only)" % ("".join(combo), h.pushes, want), combo, False))
+                    wantst = (("name",), ("pos", i))
+                    nm = h.names.get(wantst)
+                    if nm is None or (lo, hi) != (var(nm, 0), var(nm, 1)):
+                        got = "%s|%s" % (bv.t_str(hi), bv.t_str(lo))
+                        for nm2, st2 in rev.items():
+                            got = got.replace(nm2, "hash%r" % (st2,))
+                        problems.append(("input %r: base %d (byte 0x%02x) becomes %s; required (hash(read name, position %d) %% 4): a valid base that is a "
+                                         "function of (read name, position) only" % (shown, i, classes[c], got, i), combo, False))
+                        break
+            else:
+                # padding bits of the last word stay zero (representation invariant)
+                if n % 32 and st.elems:
+                    wb = st.elems[-1].getbits()
+                    if any(wb[j] is not ZERO for j in range(0, 64 - 2 * (n % 32))):
+                        problems.append(("input %r: padding bits of the last word are not zero" % shown, combo, False))
     hard = [p for p in problems if not p[2]]
     if hard:
         rep.violated(rule, "from_acgt_bytes_hashn", "from_acgt_bytes_hashn: %s" % hard[0][0], witness={"kind": "row", "row": {"input": "".join(hard[0][1])}, "count": len(hard)})
     elif problems:
         rep.inconclusive(rule, "from_acgt_bytes_hashn", "from_acgt_bytes_hashn: %s" % problems[0][0])
     else:
-        rep.holds(rule, "from_acgt_bytes_hashn", "from_acgt_bytes_hashn: on all %d inputs over {A,c,G,t,N,0xff}^<=3 ACGT map to their codes and every other byte to "
-                  "(hash(name, position) %% 4) with a fixed-key hasher" % rows, sample={"inputs": rows})
+        rep.holds(rule, "from_acgt_bytes_hashn", "from_acgt_bytes_hashn: on all %d runs (inputs over {A,a,c,G,t,N,0xff}^<=3, with and without the vector path) the "
+                  "final string keeps ACGT/acgt as their codes and holds (hash(name, position) %% 4) of a fixed-key hasher at every other byte" % rows,
+                  sample={"inputs": rows})
     # determinism effect: no random-keyed hasher / clock / rng reachable
     bad = [k for k in list(F.insts) + list(F.externs) if ("RandomState" in k or "SystemTime" in k or "thread_rng" in k or "Instant::now" in k)]
     reach = instance_reach(F, key)
